@@ -8,4 +8,8 @@ S2 == [nodes |-> Nodes1, firstFree |-> 9, paths |-> [p1 |-> <<"la", "x", "y">>, 
 S3 == [nodes |-> Nodes1, firstFree |-> 9, paths |-> [p1 |-> <<"n1", "n2", "n3">>, p2 |-> <<"n1", "n2">>]]
 S4 == [nodes |-> Nodes1, firstFree |-> 9, paths |-> [p1 |-> <<"a", "..", "a", "b", "q", "r">>, p2 |-> <<"a", "b", "q">>]]
 S5 == [nodes |-> Nodes1, firstFree |-> 9, paths |-> [p1 |-> <<"n1", "n2">>, p2 |-> <<"n1", "n2">>, p3 |-> <<"n1", "m">>]]
+\* a missing component followed by "..": safe only because ".." is refused in the not-yet-existing tail
+S6 == [nodes |-> Nodes1, firstFree |-> 9, paths |-> [p1 |-> <<"a", "nx", "..", "..", "..", "pwned">>, p2 |-> <<"a">>]]
+const_NoNames == {}
+const_NxNames == {"nx"}
 ====
